@@ -22,6 +22,12 @@ func TestC04(t *testing.T) {
 	if emit.Thorough() {
 		n = 3000
 	}
+	for _, cc := range storeh.Corpus {
+		cfg := storeh.Config{Batch: cc.Batch, Cache: 4, ICache: 4, U: 24, NH: 1, ProbeEvery: true, Ranges: 2}
+		res := storeh.Run(t, rng, cfg, len(cc.Ops), storeh.Scripted(cc.Ops))
+		w.Add(res.Term, res.Descr, "corpus/"+cc.Name, true)
+		w.Count("corpus", cc.Name)
+	}
 	for i := 0; i < n; i++ {
 		cfg := storeh.Config{
 			Batch: []int{1, 2, 3, 5, 64}[rng.Intn(5)], Cache: []int{4, 5, 8, 512}[rng.Intn(4)], ICache: []int{4, 6, 2048}[rng.Intn(3)],
